@@ -65,7 +65,7 @@ type rangeSpec struct {
 	loIn, hiIn   bool
 }
 
-// The first 6 are the quick tier (DESIGN §3 C08); thorough adds the remaining bracket forms.
+// The first 8 are the quick tier (DESIGN §3 C08); thorough adds the remaining bracket forms.
 var ranges = []rangeSpec{
 	{"[1:5]", 1, 5, true, true, true, true},
 	{"(1:5)", 1, 5, true, true, false, false},
@@ -81,7 +81,7 @@ var ranges = []rangeSpec{
 	{"[1:)", 1, 0, true, false, true, false},
 }
 
-const nQuickRanges = 6
+const nQuickRanges = 8 // incl. the exclusive half-open forms (:5) and (1:) — a seeded change broke exactly those
 
 var (
 	numOptions = []string{"2", "7"} // 2 lies inside every range of the table, 7 outside the bounded ones
